@@ -1308,19 +1308,32 @@ func runCallOrder(c *core.Ctx) {
 			if fs.Cond == nil && len(iteratorDoneCalls(info, fs.Body)) == 0 {
 				return true
 			}
+			isRestore := func(k ast.Node) bool {
+				call, ok := k.(*ast.CallExpr)
+				return ok && an.IsMethodNamed(an.CalleeFunc(info, call), an.PkgDistsys, "ArchetypeInterface", "Write") && len(call.Args) == 3 && !handles[an.ObjOf(info, call.Args[0])]
+			}
+			has := false
 			ast.Inspect(fs.Body, func(k ast.Node) bool {
-				if call, ok := k.(*ast.CallExpr); ok && an.IsMethodNamed(an.CalleeFunc(info, call), an.PkgDistsys, "ArchetypeInterface", "Write") && len(call.Args) == 3 {
-					if !handles[an.ObjOf(info, call.Args[0])] {
-						restore = true
-					}
+				if isRestore(k) {
+					has = true
 				}
 				return true
 			})
+			if !has {
+				return true
+			}
+			// ... on every path of an iteration: a pair that is put back some other way (straight into the variable's cell,
+			// say) is not marked dirty, so its rollback copy keeps the callee's value and a later abort of the caller
+			// resurrects it
+			g := e.Graph(fn)
+			if bb := g.BlockOfStmt(fs, cfg.KindForBody); bb != nil && g.PassesWithinUnlessExit(bb, fs.Body.Pos(), fs.Body.End(), isRestore) {
+				restore = true
+			}
 			return true
 		})
 		c.Check(popTail, "Return:pops-with-Tail", fn.Pos(), ".stack := Tail(.stack)", "Return does not write Tail(stack) back to the .stack cell: the frame is not popped")
 		c.Check(usesHead, "Return:restores-from-Head", fn.Pos(), "the frame restored is Head(.stack)", "Return does not take Head(stack) as the frame to restore")
-		c.Check(restore, "Return:writes-every-saved-pair", fn.Pos(), "every (name, value) pair of the frame is written back", "Return does not write every saved pair of the frame back to its variable")
+		c.Check(restore, "Return:writes-every-saved-pair", fn.Pos(), "every (name, value) pair of the frame is written back through iface.Write, on every path of the loop", "Return does not write every saved pair of the frame back to its variable through iface.Write (some iteration continues without it): a variable restored behind the driver's back is not marked dirty, and a later abort brings the callee's value back")
 	}
 	// ---- by-reference parameters: the indirection is followed on every use (Call/Return rewrite the pointer cell)
 	if fn := mustMethod(c, e, an.PkgDistsys, "ArchetypeInterface", "RequireArchetypeResourceRef"); fn != nil {
